@@ -30,16 +30,16 @@ Hypothesis dot_sym : forall u v, dot u v = conj (dot v u).
 Hypothesis nrm_sq : forall v, vnrm o vo v * vnrm o vo v = dot v v.
 Hypothesis nrm_real : forall v, conj (vnrm o vo v) = vnrm o vo v.
 Variable A : V -> V.
-Variables (selfref zero_nan : bool).       (* the theorems hold for either value of the two Arnoldi flags *)
+Variables (selfref zero_nan abs_clip : bool).       (* the theorems hold for either value of the two Arnoldi flags *)
 Variables (tol : T) (r0 : V).
 Hypothesis Hr0nz : vnrm o vo r0 <> 0.
 Hypothesis Hstart : start_den o zero_nan (vnrm o vo r0) = vnrm o vo r0.    (* the start vector is divided by its norm *)
 
-Definition acs (k : nat) : acol (T:=T) (V:=V) := Nat.iter k (arnoldi_step o vo A selfref tol) (init_acol o vo zero_nan r0).
+Definition acs (k : nat) : acol (T:=T) (V:=V) := Nat.iter k (arnoldi_step o vo A selfref abs_clip tol) (init_acol o vo zero_nan r0).
 (* the new vector is divided by its own, non-zero, norm (not clipped at tol/2, not replaced by zero) *)
 Definition unclipped (c : acol (T:=T) (V:=V)) : Prop :=
   forall w hs, mgs vo (aqs c) (A (alast c)) [] = (w, hs) ->
-  next_q o vo selfref tol w (vnrm o vo w) = vdivs vo w (vnrm o vo w) /\ vnrm o vo w <> 0.
+  next_q o vo selfref (step_thr o abs_clip tol (ahs c ++ [rev hs ++ [vnrm o vo w]])) w (vnrm o vo w) = vdivs vo w (vnrm o vo w) /\ vnrm o vo w <> 0.
 Variable K : nat.
 Hypothesis Hunc : forall k, (k < K)%nat -> unclipped (acs k).
 
@@ -52,7 +52,7 @@ Definition AInv (k : nat) (c : acol (T:=T) (V:=V)) : Prop :=
 Lemma combine_app_short {X Y} : forall (a : list X) (b b' : list Y), (length a <= length b)%nat -> combine a (b ++ b') = combine a b.
 Proof. induction a as [|x a IH]; intros [|y b] b' H; cbn in *; try reflexivity; try lia. f_equal. apply IH. lia. Qed.
 
-Lemma acs_S k : acs (S k) = arnoldi_step o vo A selfref tol (acs k). Proof. reflexivity. Qed.
+Lemma acs_S k : acs (S k) = arnoldi_step o vo A selfref abs_clip tol (acs k). Proof. reflexivity. Qed.
 
 Theorem arnoldi_invariant k : (k <= K)%nat -> AInv k (acs k).
 Proof.
@@ -67,9 +67,9 @@ Proof.
   - destruct (IH ltac:(lia)) as (Hon & Lq & Lh & Hlast & Hrel).
     destruct (mgs vo (aqs (acs k)) (A (alast (acs k))) []) as [w hs] eqn:Hm.
     destruct (Hunc k ltac:(lia) w hs Hm) as [Hclip Hnz].
-    destruct (arnoldi_step_spec o vo Fth conj_add conj_div dot_sub_r dot_scale_r dot_divs_r dot_sym A nrm_sq nrm_real selfref tol (acs k) Hon w hs Hm Hclip Hnz)
+    destruct (arnoldi_step_spec o vo Fth conj_add conj_div dot_sub_r dot_scale_r dot_divs_r dot_sym A nrm_sq nrm_real selfref abs_clip tol (acs k) Hon w hs Hm Hclip Hnz)
       as (Hon' & hcol & Eh & Lc & Eq & Hnew).
-    rewrite acs_S. set (c' := arnoldi_step o vo A selfref tol (acs k)) in *.
+    rewrite acs_S. set (c' := arnoldi_step o vo A selfref abs_clip tol (acs k)) in *.
     unfold AInv. split; [exact Hon'|]. split; [rewrite Eq, app_length; cbn [length]; lia|].
     split; [rewrite Eh, app_length; cbn [length]; lia|]. split.
     + rewrite Eq, nth_error_app2 by lia. rewrite Lq, Nat.sub_diag. reflexivity.
